@@ -12,7 +12,7 @@
 From Coq Require Import List Arith ZArith Lia.
 From TeraV Require Import Model.Value Model.Instr Model.Optimize Proofs.OptimizeProofs Props.C09.
 From TeraV Require Import Gen.Tables Gen.ParseLimits Model.ParseDepth
-  Proofs.ParseDepthProofs Proofs.ParseDepthLimits.
+  Proofs.ParseDepthProofs Proofs.ParseDepthLimits Proofs.ParseDepthAst.
 Import ListNotations.
 Local Open Scope nat_scope.
 
@@ -55,6 +55,16 @@ Theorem C06_ast_depth_bounded_refuted :
     | _ => False
     end.
 Proof. exists (plus_chain 2000). vm_compute. split; [lia | lia]. Qed.
+
+(* ... and with the two limits of the repair present (chain limit E = MAX_EXPRESSION_DEPTH, elif
+   limit L = MAX_ELIF_DEPTH) every accepted token list, of any length, yields an AST of depth at
+   most E + 2 * MAX_RECURSION_DEPTH + L + 2 (838 with the values of the patch): the recursion of
+   compile_expr / compile_node / Drop / Clone on it is bounded by the limits alone. *)
+Theorem C06_ast_depth_bounded : forall (C : cfg) (E L : nat),
+  c_expr_limit C = Some E -> c_elif_limit C = Some L ->
+  forall fuel ts nodes s,
+    parse C fuel ts = ROk nodes s -> depth_list nodes <= E + 2 * c_max_rd C + L + 2.
+Proof. exact ast_depth_bounded. Qed.
 
 (* NESTING BEYOND A LIMIT IS A SYNTAX ERROR, for every continuation of the input.
    Local form: at each check, a counter at its limit gives the error outcome. *)
@@ -104,6 +114,7 @@ Qed.
 Print Assumptions C06_parser_depth_bounded.
 Print Assumptions C06_parser_depth_bounded_refuted.
 Print Assumptions C06_ast_depth_bounded_refuted.
+Print Assumptions C06_ast_depth_bounded.
 Print Assumptions C06_nesting_limit_is_syntax_error_parens.
 Print Assumptions C06_optimize_indices_in_bounds.
 
@@ -122,3 +133,17 @@ Example C06_ex_paren_limit :
   (match parse cfg_tree 400 (TVarStart :: repeat TLParen 39 ++ TAtom :: repeat TRParen 39 ++ [TVarEnd]) with
    | RErr _ => True | _ => False end).
 Proof. vm_compute. split; exact I. Qed.
+
+(* with the limits of the patch: a 200-link chain is accepted (depth 202: the node, 200 operators,
+   a leaf), a 300-link chain and a 501-branch elif are syntax errors *)
+Definition cfg_patched : cfg := mkcfg 40 2 4 (Some 256) (Some 500).
+Example C06_ex_chain_limits :
+  (match parse cfg_patched (fuel_for (plus_chain 200)) (plus_chain 200) with
+   | ROk nodes _ => depth_list nodes = 202 | _ => False end) /\
+  (match parse cfg_patched (fuel_for (plus_chain 300)) (plus_chain 300) with
+   | RErr _ => True | _ => False end) /\
+  (match parse cfg_patched (fuel_for (elif_chain 500)) (elif_chain 500) with
+   | ROk nodes _ => depth_list nodes = 502 | _ => False end) /\
+  (match parse cfg_patched (fuel_for (elif_chain 501)) (elif_chain 501) with
+   | RErr _ => True | _ => False end).
+Proof. vm_compute. repeat split. Qed.
